@@ -66,6 +66,53 @@ impl<'a> B<'a> {
         Some(d)
     }
 
+    /// the same binary operation with its two operands swapped, both results kept alive together
+    /// (catches rewrites that treat a non-commutative operation as commutative)
+    pub fn p_swapped_pair(&mut self) -> Option<Node> {
+        use ciphercore_base::graphs::Operation;
+        let nodes = self.g.get_nodes();
+        let cands: Vec<Node> = nodes
+            .iter()
+            .filter(|n| {
+                n.get_node_dependencies().len() == 2
+                    && matches!(
+                        n.get_operation(),
+                        Operation::Add | Operation::Subtract | Operation::Multiply | Operation::Dot | Operation::Matmul | Operation::Gemm(_, _)
+                    )
+            })
+            .cloned()
+            .collect();
+        let n = if cands.is_empty() || self.rng.chance(1, 3) {
+            // make a fresh product of two matrices that can be multiplied both ways
+            let st = *self.rng.pick(&INT_ST);
+            let (r, c) = (self.rng.range(1, 3), self.rng.range(1, 3));
+            let a = match self.pick_where(|t| *t == array_type(vec![r, c], st)) {
+                Some(a) => a,
+                None => self.constant(array_type(vec![r, c], st), Fill::Extreme)?,
+            };
+            let b = self.constant(array_type(vec![c, r], st), Fill::Uniform)?;
+            let r0 = match self.rng.below(3) {
+                0 => self.g.dot(a, b),
+                1 => self.g.matmul(a, b),
+                _ => self.g.gemm(a, b, false, false),
+            };
+            self.accept(r0, "MatrixProduct")?
+        } else {
+            self.rng.pick(&cands).clone()
+        };
+        let deps = n.get_node_dependencies();
+        let r = self.g.add_node(vec![deps[1].clone(), deps[0].clone()], vec![], n.get_operation());
+        let m = self.accept(r, "Swapped")?;
+        // keep both alive in one value
+        if self.ty(&n) == self.ty(&m) && self.rng.bool() {
+            let r = self.g.subtract(n, m);
+            self.accept(r, "Subtract")
+        } else {
+            let r = self.g.create_tuple(vec![n, m]);
+            self.accept(r, "CreateTuple")
+        }
+    }
+
     pub fn p_name(&mut self) -> Option<Node> {
         let a = self.rng.pick(&self.pool.clone()).clone();
         let name = format!("n{}", self.rng.below(1000));
@@ -152,7 +199,7 @@ impl<'a> B<'a> {
     }
 
     pub fn step_inl(&mut self) -> Option<Node> {
-        match self.rng.below(24) {
+        match self.rng.below(25) {
             0..=8 => {
                 // the inlined part of the MPC alphabet (no calls, no custom operations)
                 match self.rng.below(22) {
@@ -184,7 +231,13 @@ impl<'a> B<'a> {
             20 => self.p_random(),
             21 => self.p_prf(),
             22 => self.p_prf_pair(),
-            _ => self.p_nop(),
+            _ => {
+                if self.rng.bool() {
+                    self.p_swapped_pair()
+                } else {
+                    self.p_nop()
+                }
+            }
         }
     }
 }
